@@ -669,3 +669,25 @@ Definition field_attrs (f : fields) : list fattr :=
 
 Definition generate_bounds (generic : nat -> bool) (refs : nat -> nat -> list bound) (e : expansion) : list bound :=
   bounds_from generic refs 0 (field_attrs (e_fields e)).
+
+(* ------------------------------------------------------------------ the impl's where clause (debug.rs:53-60) *)
+
+(** expand_enum (debug.rs:134-185): the inferred bounds of the variants are concatenated in declaration
+    order ([bounds.extend(v.generate_bounds()?)]); a struct is the one-unit case.  Each bound is tagged
+    with the unit (struct = 0 / variant index) whose field type it speaks about. *)
+Fixpoint enum_bounds_from (u : nat) (bss : list (list bound)) : list (nat * bound) :=
+  match bss with
+  | [] => []
+  | bs :: rest => map (fun b => (u, b)) bs ++ enum_bounds_from (S u) rest
+  end.
+Definition enum_bounds (bss : list (list bound)) : list (nat * bound) := enum_bounds_from 0 bss.
+
+(** a predicate of the emitted impl's where clause: the k-th predicate the user wrote on the item, or an
+    inferred one *)
+Inductive wpred := WUser (k : nat) | WField (ub : nat * bound).
+
+(** expand (debug.rs:53-60): [where_clause.cloned().unwrap_or_else(|| parse_quote!{ where })] then
+    [predicates.extend(bounds)] - the user's predicates (if any) in their order, then ALL inferred bounds,
+    whether or not the item had a where clause of its own *)
+Definition impl_where_clause (n_user : nat) (inferred : list (nat * bound)) : list wpred :=
+  map WUser (seq 0 n_user) ++ map WField inferred.
